@@ -16,6 +16,9 @@ structure St where
   /-- background tasks enqueued and not finished (the code's task queues hold 5) -/
   flushQ : Nat := 0
   compactQ : Nat := 0
+  /-- a `ScanPrefix` between its two phases: prefix and the merged memtable entries taken in the first phase
+  (`DB.ScanPrefix` builds the memtable iterator first, then snapshots the sstables) -/
+  scanning : Option (Bytes × Run) := none
 
 def showAnswer : Option Bytes → String
   | some v => "val " ++ toHex v
@@ -57,7 +60,7 @@ def applyActs (st : St) (acts : List Act) : Option St :=
   | none => none
 
 def writeOp (st : St) (a : Act) (hint : List String) : St × String :=
-  if st.s.reading.isSome then (st, "reader-busy") else
+  if st.s.reading.isSome || st.scanning.isSome then (st, "reader-busy") else
   if st.flushQ ≥ 4 then (st, "queue-full") else
   let rot := hint == ["rot=1"]
   match applyActs st (if rot then [a, .rotate] else [a]) with
@@ -70,13 +73,16 @@ def step (st : St) (ws : List String) : St × String :=
   | ["put", k, v] => writeOp st (.put (hexOr k) (hexOr v)) hint
   | ["del", k] => writeOp st (.del (hexOr k)) hint
   | ["get", k] =>
-    if st.s.reading.isSome then (st, "reader-busy") else
+    if st.s.reading.isSome || st.scanning.isSome then (st, "reader-busy") else
     (st, withSpec (showAnswer (answer (get st.s (hexOr k)))) (showAnswer (answer (Spec.get st.spec (hexOr k)))))
   | ["scan", p] =>
-    if st.s.reading.isSome then (st, "reader-busy") else
+    if st.s.reading.isSome || st.scanning.isSome then (st, "reader-busy") else
     (st, withSpec (showScan (scan st.s (hexOr p))) (showScan (specScan st.spec (hexOr p))))
+  | ["scanpark", p] =>
+    if st.s.reading.isSome || st.scanning.isSome then (st, "reader-busy") else
+    ({ st with scanning := some (hexOr p, mergeAll (st.s.mems.map (prefixRun (hexOr p)))) }, "parked")
   | ["getpark", k] =>
-    if st.s.reading.isSome then (st, "reader-busy") else
+    if st.s.reading.isSome || st.scanning.isSome then (st, "reader-busy") else
     match applyActs st [.getA (hexOr k)] with
     | some st' =>
       match st'.s.reading with
@@ -87,6 +93,11 @@ def step (st : St) (ws : List String) : St × String :=
       | _ => (st', "parked")
     | none => ({ st with bad := true }, "disabled")
   | ["resume"] =>
+    match st.scanning with
+    | some (p, memRun) =>
+      let raw := merge2 memRun (mergeAll ((st.s.levels.flatten).map (·.scan p)))
+      ({ st with scanning := none }, withSpec (showScan (raw.filter (fun e => !e.del))) (showScan (specScan st.spec p)))
+    | none =>
     match st.s.reading with
     | none => (st, "no-reader")
     | some (k, _) =>
@@ -116,7 +127,12 @@ def step (st : St) (ws : List String) : St × String :=
       let runs := if addStr == "none" then [] else (addStr.splitOn "|").map parseRun
       match applyActs st [.compact rmIds l runs] with
       | some st' => (st', joinWith " " hint)
-      | none => ({ st with bad := true }, "unsafe")
+      | none =>
+        -- not in the safe family: report it, but keep following the implementation's layout so that the
+        -- reads that follow are still compared with the (independent) map specification
+        let s' := { st.s with levels := addAt (removeIds rmIds st.s.levels) l (mkTables st.s.nextId runs),
+                              nextId := st.s.nextId + runs.length }
+        ({ st with s := s', bad := true }, "unsafe")
     | _ => (st, "bad-hint")
   | _ => (st, "bad-op")
 
